@@ -13,6 +13,9 @@ def harness_for(cfg):
     def h(E):
         srcs = [event.Source(trigger=t, path=(f"s{i}",)) for i, t in enumerate(("level", "rise", "fall"))]
         em = event.EventMap()
+        # the same sources are also members of a SECOND, unrelated map, which is filled in reverse order in between
+        # (a source shared by two monitors): the first map's numbering must not notice
+        other = event.EventMap()
         fpos = E.int("freeze_at", 0, n)
         order = []            # oracle: first-addition order
         frozen = False
@@ -31,6 +34,10 @@ def harness_for(cfg):
             except ValueError:
                 E.prove(frozen, "add refused although the map is not frozen")
                 E.prove([(id(s), ix) for s, ix in em.sources()] == before, "refused add changed the map")
+            try:
+                other.add(srcs[2 - k])
+            except ValueError:
+                pass
             E.prove(em.size == len(order), "size = number of distinct sources added")
             for j in range(3):
                 try:
